@@ -1,27 +1,61 @@
 #!/venv/bin/python
-"""refcheck.py <dir with patch.diff> : a behaviour-preserving refactoring must leave every check silent (exit 0)."""
-import json, os, subprocess, sys, tempfile
+"""refcheck.py [--tests] <dir with patch.diff> ... : a behaviour-preserving refactoring must leave every check silent (exit 0).
+
+Each patch is applied in its own scratch worktree of /repo (removed afterwards); with --tests the 125 tests are run first.
+"""
+import json
+import os
+import subprocess
+import sys
+import tempfile
+from concurrent.futures import ThreadPoolExecutor
+
 VERIF = os.path.dirname(os.path.dirname(os.path.abspath(__file__)))
 ALL = ["C01", "C02", "C04", "C05", "C06", "C07", "C08", "C09", "C10", "C11", "C12", "C13", "C14", "C15", "C16", "C17", "C18", "C19"]
+
 
 def sh(cmd, cwd=None, env=None):
     p = subprocess.run(cmd, shell=True, cwd=cwd, env=env, capture_output=True, text=True, timeout=1800)
     return p.returncode, p.stdout + p.stderr
 
-d = os.path.abspath(sys.argv[1])
-wt = tempfile.mkdtemp(prefix="refchk_", dir="/tmp"); os.rmdir(wt)
-out = {"ref": d}
-try:
-    rc, o = sh(f"git -C /repo worktree add -q {wt} HEAD"); assert rc == 0, o
-    rc, o = sh(f"git -C {wt} apply --whitespace=nowarn {d}/patch.diff"); out["apply_rc"] = rc
-    env = dict(os.environ, PYTHONPATH=f"{wt}/src")
-    rc, o = sh("/venv/bin/python -m pytest -q -x -p no:cacheprovider --timeout=900", cwd=wt, env=env); out["tests_rc"] = rc
-    res = {}
-    for pid in ALL:
-        rc, o = sh(f"{VERIF}/vcheck {pid} --no-evidence --root {wt}", cwd=VERIF)
-        if rc != 0:
-            res[pid] = {"exit": rc, "lines": [l for l in o.splitlines() if l.startswith("  src/") or l.startswith("ANALYSIS")][:3]}
-    out["alarms"] = res
-finally:
-    sh(f"git -C /repo worktree remove --force {wt}")
-print(json.dumps(out, indent=1))
+
+def one(d, tests):
+    d = os.path.abspath(d)
+    wt = tempfile.mkdtemp(prefix="refchk_", dir="/tmp")
+    os.rmdir(wt)
+    out = {"ref": os.path.basename(d)}
+    try:
+        rc, o = sh(f"git -C /repo worktree add -q {wt} HEAD")
+        assert rc == 0, o
+        rc, o = sh(f"git -C {wt} apply --whitespace=nowarn {d}/patch.diff")
+        out["apply_rc"] = rc
+        if tests:
+            env = dict(os.environ, PYTHONPATH=f"{wt}/src")
+            rc, o = sh("/venv/bin/python -m pytest -q -x -p no:cacheprovider --timeout=900", cwd=wt, env=env)
+            out["tests_rc"] = rc
+        res = {}
+        for pid in ALL:
+            rc, o = sh(f"{VERIF}/vcheck {pid} --no-evidence --root {wt}", cwd=VERIF)
+            if rc != 0:
+                res[pid] = {"exit": rc, "lines": [l[:400] for l in o.splitlines() if l.startswith("  src/") or l.startswith("ANALYSIS")][:3]}
+        out["alarms"] = res
+    finally:
+        sh(f"git -C /repo worktree remove --force {wt}")
+    return out
+
+
+def main():
+    args = [a for a in sys.argv[1:] if not a.startswith("--")]
+    tests = "--tests" in sys.argv
+    with ThreadPoolExecutor(max_workers=8) as ex:
+        results = list(ex.map(lambda d: one(d, tests), args))
+    bad = 0
+    for r in results:
+        print(json.dumps(r, indent=1))
+        bad += bool(r["alarms"]) or r.get("apply_rc", 0) != 0 or r.get("tests_rc", 0) != 0
+    print(f"{len(results)} refactoring(s), {bad} with an alarm")
+    return 1 if bad else 0
+
+
+if __name__ == "__main__":
+    sys.exit(main())
